@@ -257,6 +257,8 @@ Section Contracts.
 
   (* net/url: Parse(String(u)) keeps scheme, host and path *)
   Hypothesis parse_render : forall u, pkey L (render L u) = Some (ukey L u).
+  (* escaping ';' does not change what the URL parses to *)
+  Hypothesis parse_rawc : forall u, pkey L (rawc L u) = Some (ukey L u).
   (* normalized(u) is a function of (scheme, host, path) only *)
   Hypothesis norm_key : forall x y, ukey L x = ukey L y -> norm L x = norm L y.
   (* AES-GCM + base64: open k (seal k m) = m; anything that opens under k was sealed under k (forgeries,
@@ -269,8 +271,10 @@ Section Contracts.
   Hypothesis bar_render : forall u, V u -> snd (bar L (render L u)) = None.
   (* the three value formats are disjoint: hex digits / base64url of >= 29 bytes / a URL with a scheme *)
   Hypothesis hash_not_render : forall s a u, hash L s a <> render L u.
+  Hypothesis hash_not_rawc : forall s a u, hash L s a <> rawc L u.
   Hypothesis hash_not_seal : forall s a k n m, hash L s a <> seal L k n m.
   Hypothesis seal_not_render : forall k n m u, seal L k n m <> render L u.
+  Hypothesis seal_not_rawc : forall k n m u, seal L k n m <> rawc L u.
   (* read as a URL, a hex or base64 string is a relative path: not the (scheme, host, path) of a server *)
   Hypothesis hash_not_url : forall s a x, V x -> pkey L (hash L s a) <> Some (ukey L x).
   Hypothesis seal_not_url : forall k n m x, V x -> pkey L (seal L k n m) <> Some (ukey L x).
@@ -296,19 +300,19 @@ Section Contracts.
     destruct l as [|s|k ttl|]; [| | |destruct Hl]; destruct m as [|s0|k0 ttl0|]; try destruct Hm;
       cbn [find_url get].
     - (* Raw / Raw *) intros H. destruct (match_url_sound _ _ _ _ H) as [A B].
-      rewrite parse_render in B. congruence.
+      rewrite parse_rawc in B. congruence.
     - (* Raw / Hash *) intros H. destruct (match_url_sound _ _ _ _ H) as [A B].
       destruct (hash_not_url _ _ _ (Hpool _ A) B).
     - (* Raw / Aes *) intros H. destruct (match_url_sound _ _ _ _ H) as [A B].
       destruct (seal_not_url _ _ _ _ (Hpool _ A) B).
     - (* Hash / Raw *) intros H. destruct (match_hash_sound _ _ _ _ _ H) as [A B].
-      symmetry in B. destruct (hash_not_render _ _ _ B).
+      symmetry in B. destruct (hash_not_rawc _ _ _ B).
     - (* Hash / Hash *) intros H. destruct (match_hash_sound _ _ _ _ _ H) as [A B].
       symmetry. eapply no_collision; [exact HS|exact (Hpool _ A)|exact B].
     - (* Hash / Aes *) intros H. destruct (match_hash_sound _ _ _ _ _ H) as [A B].
       symmetry in B. destruct (hash_not_seal _ _ _ _ _ B).
-    - (* Aes / Raw *) unfold from_value. destruct (aopen L k (render L S)) as [p|] eqn:E; [|discriminate].
-      destruct (open_only_sealed _ _ _ E) as [n' E']. symmetry in E'. destruct (seal_not_render _ _ _ _ E').
+    - (* Aes / Raw *) unfold from_value. destruct (aopen L k (rawc L S)) as [p|] eqn:E; [|discriminate].
+      destruct (open_only_sealed _ _ _ E) as [n' E']. symmetry in E'. destruct (seal_not_rawc _ _ _ _ E').
     - (* Aes / Hash *) unfold from_value. destruct (aopen L k (hash L s0 (norm L S))) as [p|] eqn:E; [|discriminate].
       destruct (open_only_sealed _ _ _ E) as [n' E']. destruct (hash_not_seal _ _ _ _ _ E').
     - (* Aes / Aes *) unfold from_value.
@@ -330,7 +334,7 @@ Section Contracts.
     exists x, find_url L now m (get L t0 n m S) pool = Found x.
   Proof.
     intros Hm HS Hpool HM Hf. destruct m as [|s|k ttl|]; [| | |destruct Hm]; cbn [find_url get].
-    - destruct (match_url_complete L _ pool _ (parse_render S) HM) as [x [A _]]. eauto.
+    - destruct (match_url_complete L _ pool _ (parse_rawc S) HM) as [x [A _]]. eauto.
     - destruct HM as [M [HM1 HM2]].
       destruct (match_hash_complete L s (hash L s (norm L S)) pool) as [x [A _]]; eauto.
       exists M. split; auto. f_equal. apply norm_key. auto.
@@ -438,9 +442,10 @@ Section Contracts.
 End Contracts.
 
 (* ------------------------------------------------------------------------------------------ *)
-(* The contracts bundled: one premise instead of fourteen.  V = the server URLs ever put into the pool. *)
+(* The contracts bundled: one premise instead of seventeen.  V = the server URLs ever put into the pool. *)
 Record contracts (L : lib) (V : Z -> Prop) : Prop := {
   c_parse_render : forall u, pkey L (render L u) = Some (ukey L u);
+  c_parse_rawc : forall u, pkey L (rawc L u) = Some (ukey L u);
   c_norm_key : forall x y, ukey L x = ukey L y -> norm L x = norm L y;
   c_open_seal : forall k n m, aopen L k (seal L k n m) = Some m;
   c_open_only_sealed : forall k c m, aopen L k c = Some m -> exists n, c = seal L k n m;
@@ -448,8 +453,10 @@ Record contracts (L : lib) (V : Z -> Prop) : Prop := {
   c_bar_join : forall s e, bar L (join L s e) = (s, Some (Some e));
   c_bar_render : forall u, V u -> snd (bar L (render L u)) = None;
   c_hash_not_render : forall s a u, hash L s a <> render L u;
+  c_hash_not_rawc : forall s a u, hash L s a <> rawc L u;
   c_hash_not_seal : forall s a k n m, hash L s a <> seal L k n m;
   c_seal_not_render : forall k n m u, seal L k n m <> render L u;
+  c_seal_not_rawc : forall k n m u, seal L k n m <> rawc L u;
   c_hash_not_url : forall s a x, V x -> pkey L (hash L s a) <> Some (ukey L x);
   c_seal_not_url : forall k n m x, V x -> pkey L (seal L k n m) <> Some (ukey L x);
   c_join_url : forall u e x, V u -> V x -> pkey L (join L (render L u) e) = Some (ukey L x) -> ukey L x = ukey L u;
@@ -562,6 +569,7 @@ Module Instance.
 
   Definition L : lib := {|
     render := fun u => str 0 (zn u);
+    rawc := fun u => str 0 (zn u);
     norm := fun u => str 0 (zn u);
     ukey := fun u => u;
     pkey := fun s => match dec s with Some (O, x) => Some (nz x) | _ => None end;
@@ -582,7 +590,8 @@ Module Instance.
 
   Lemma ok : contracts L (fun _ => True).
   Proof.
-    constructor; cbn [L render norm ukey pkey hash seal aopen join bar].
+    constructor; cbn [L render rawc norm ukey pkey hash seal aopen join bar].
+    - intros u. rewrite dec_str by lia. rewrite nz_zn. reflexivity.
     - intros u. rewrite dec_str by lia. rewrite nz_zn. reflexivity.
     - intros x y ->. reflexivity.
     - intros k n m. rewrite dec_str by lia. unfold pr. rewrite Cantor.cancel_of_to, Nat.eqb_refl, nz_zn. reflexivity.
@@ -595,7 +604,9 @@ Module Instance.
     - intros s e. rewrite dec_str by lia. unfold pr. rewrite Cantor.cancel_of_to, !nz_zn. reflexivity.
     - intros u _. rewrite dec_str by lia. reflexivity.
     - intros s a u H. apply str_inj in H; lia.
+    - intros s a u H. apply str_inj in H; lia.
     - intros s a k n m H. apply str_inj in H; lia.
+    - intros k n m u H. apply str_inj in H; lia.
     - intros k n m u H. apply str_inj in H; lia.
     - intros s a x _. rewrite dec_str by lia. discriminate.
     - intros k n m x _. rewrite dec_str by lia. discriminate.
